@@ -131,31 +131,68 @@ theorem search_ne_nil_of_keyOk (m : KeyMode) (T : Table) (ski : List Nat) (asn :
     cases m <;> simp [searchBySki, keyOk, List.mem_filter] at hok ⊢ <;> grind
   intro h; rw [h] at this; simp at this
 
-/-- one hop of the loop: the keys found by SKI, tried in order -/
-theorem tryKeys_search_iff (m : KeyMode) (T : Table) (s : SigSeg) (p : PathSeg) (dg : List Nat)
-    (hne : searchBySki T s.ski ≠ []) :
-    tryKeys verify m (hash dg) s.sig p.asn (searchBySki T s.ski) .valid = .valid ↔ KeyVerifies hash verify m T s p dg := by
+/-- one hop of the loop: the keys found by SKI, tried in order (`retval` is `SUCCESS` when the key loop
+    starts, so a lookup without result is not VALID) -/
+theorem tryKeys_search_iff (m : KeyMode) (T : Table) (s : SigSeg) (p : PathSeg) (dg : List Nat) :
+    tryKeys verify m (hash dg) s.sig p.asn (searchBySki T s.ski) .success = .valid ↔ KeyVerifies hash verify m T s p dg := by
   rw [tryKeys_valid_iff, KeyVerifies, ← exists_search_iff m T s.ski p.asn (fun k => verify k.spki (hash dg) s.sig = .valid)]
-  simp [hne]
+  simp
 
-/-- every hop verifies, as a recursion over the path from the most recent segment to the origin -/
-def AllOk (m : KeyMode) (T : Table) (d : Data) : Nat → List PathSeg → List SigSeg → Prop
-  | t, p :: ps, s :: ss => KeyVerifies hash verify m T s p (digestOf d t (p :: ps) ss) ∧ AllOk m T d p.asn ps ss
-  | _, _, [] => True
-  | _, [], _ :: _ => False
+/-- the lookup of a hop returned nothing: that hop is not VALID, whatever the keys were a moment ago -/
+theorem tryKeys_nil_not_valid (m : KeyMode) (h : H) (sig : List Nat) (asn : Nat) :
+    tryKeys verify m h sig asn [] .success ≠ .valid := by
+  simp [tryKeys]
+
+/-- every hop verifies under a key found BY ITS OWN LOOKUP (`V k` for the most recent segment, `V (k+1)`
+    for the next …), as a recursion over the path from the most recent segment to the origin -/
+def AllOkV (m : KeyMode) (V : View) (d : Data) : Nat → Nat → List PathSeg → List SigSeg → Prop
+  | k, t, p :: ps, s :: ss => KeyVerifies hash verify m (V k) s p (digestOf d t (p :: ps) ss) ∧ AllOkV m V d (k + 1) p.asn ps ss
+  | _, _, _, [] => True
+  | _, _, [], _ :: _ => False
+
+/-- the same against one table -/
+def AllOk (m : KeyMode) (T : Table) (d : Data) (t : Nat) (ps : List PathSeg) (ss : List SigSeg) : Prop :=
+  AllOkV hash verify m (fun _ => T) d 0 t ps ss
+
+theorem allOkV_const_aux (m : KeyMode) (T : Table) (d : Data) : ∀ (ps : List PathSeg) (ss : List SigSeg) (k k' t : Nat),
+    AllOkV hash verify m (fun _ => T) d k t ps ss ↔ AllOkV hash verify m (fun _ => T) d k' t ps ss
+  | p :: ps, s :: ss, k, k', t => by
+    simp only [AllOkV]
+    rw [allOkV_const_aux m T d ps ss (k + 1) (k' + 1) p.asn]
+  | [], [], _, _, _ => by simp [AllOkV]
+  | _ :: _, [], _, _, _ => by simp [AllOkV]
+  | [], _ :: _, _, _, _ => by simp [AllOkV]
+
+theorem allOkV_const (m : KeyMode) (T : Table) (d : Data) (ps : List PathSeg) (ss : List SigSeg) (k k' t : Nat) :
+    AllOkV hash verify m (fun _ => T) d k t ps ss ↔ AllOkV hash verify m (fun _ => T) d k' t ps ss :=
+  allOkV_const_aux hash verify m T d ps ss k k' t
+
+theorem allOk_cons (m : KeyMode) (T : Table) (d : Data) (t : Nat) (p : PathSeg) (ps : List PathSeg) (s : SigSeg) (ss : List SigSeg) :
+    AllOk hash verify m T d t (p :: ps) (s :: ss) ↔
+      KeyVerifies hash verify m T s p (digestOf d t (p :: ps) ss) ∧ AllOk hash verify m T d p.asn ps ss := by
+  simp only [AllOk, AllOkV]
+  rw [allOkV_const hash verify m T d ps ss (0 + 1) 0 p.asn]
+
+theorem allOk_nil (m : KeyMode) (T : Table) (d : Data) (t : Nat) (ps : List PathSeg) :
+    AllOk hash verify m T d t ps [] ↔ True := by
+  cases ps <;> simp [AllOk, AllOkV]
+
+theorem allOk_nil_cons (m : KeyMode) (T : Table) (d : Data) (t : Nat) (s : SigSeg) (ss : List SigSeg) :
+    AllOk hash verify m T d t [] (s :: ss) ↔ False := by
+  simp [AllOk, AllOkV]
 
 /-- The validation loop, characterised.  Invariant: the stream is `pre ++ (the RFC sequence of the
     current hop)` and `offset = pre.length`.  Consequences proved here: the loop never stops early
-    with signatures left unchecked, every iteration hashes exactly the RFC sequence of its hop,
+    with signatures left unchecked, every iteration hashes exactly the RFC sequence of its hop and
+    accepts it only under a key returned by the lookup of that iteration,
     and (under `hover`) it stops right after the last Signature Segment. -/
-theorem valLoop_iff (m : KeyMode) (stop : Bool) (T : Table) (d : Data) :
-    ∀ (ss : List SigSeg) (s : SigSeg) (ps : List PathSeg) (t : Nat) (pre stream : List Nat),
+theorem valLoopV_iff (m : KeyMode) (stop : Bool) (V : View) (d : Data) :
+    ∀ (ss : List SigSeg) (s : SigSeg) (ps : List PathSeg) (k t : Nat) (pre stream : List Nat),
     (∀ x ∈ ss, x.ski.length = 20) → ps.length = ss.length + 1 →
-    (∀ x ∈ s :: ss, searchBySki T x.ski ≠ []) →
     (stop = true ∨ d.nlri.bytes.length < 13 + ((s :: ss).getLast (by simp)).sig.length) →
     stream = pre ++ (be32 t ++ (alignLoop ps ss ++ tailBytes d)) →
-    (valLoop hash verify m stop T stream (s :: ss) ps pre.length = .valid ↔ AllOk hash verify m T d t ps (s :: ss))
-  | [], s, ps, t, pre, stream, _, hlen, hkeys, hover, hst => by
+    (valLoopV hash verify m stop V stream k (s :: ss) ps pre.length = .valid ↔ AllOkV hash verify m V d k t ps (s :: ss))
+  | [], s, ps, k, t, pre, stream, _, hlen, hover, hst => by
     match ps, hlen with
     | [p], _ =>
       have hdrop : stream.drop pre.length = digestOf d t [p] [] := by
@@ -164,16 +201,16 @@ theorem valLoop_iff (m : KeyMode) (stop : Bool) (T : Table) (d : Data) :
         rw [hst]; simp [alignLoop, tailBytes_length]; omega
       have hnl : ¬ stream.length < pre.length := by omega
       simp only [List.getLast_singleton] at hover
-      simp only [valLoop, hnl, if_false, hdrop, List.head?_cons, Option.map_some, Option.getD_some, AllOk, and_true]
-      rw [← tryKeys_search_iff hash verify m T s p _ (hkeys s (by simp))]
-      by_cases hr : tryKeys verify m (hash (digestOf d t [p] [])) s.sig p.asn (searchBySki T s.ski) .valid = .valid
+      simp only [valLoopV, hnl, if_false, hdrop, List.head?_cons, Option.map_some, Option.getD_some, AllOkV, and_true]
+      rw [← tryKeys_search_iff hash verify m (V k) s p _]
+      by_cases hr : tryKeys verify m (hash (digestOf d t [p] [])) s.sig p.asn (searchBySki (V k) s.ski) .success = .valid
       · simp only [hr, if_true, iff_true]
         rcases hover with hs | hlt
         · simp [hs]
         · have : ¬ (pre.length + (s.sig.length + 28) ≤ stream.length) := by omega
           simp [this]
       · simp [hr]
-  | s' :: ss', s, ps, t, pre, stream, hski, hlen, hkeys, hover, hst => by
+  | s' :: ss', s, ps, k, t, pre, stream, hski, hlen, hover, hst => by
     match ps, hlen with
     | p :: ps', hlen =>
       have hl' : ps'.length = ss'.length + 1 := by simpa using hlen
@@ -187,27 +224,66 @@ theorem valLoop_iff (m : KeyMode) (stop : Bool) (T : Table) (d : Data) :
         rw [hst]; simp [chunk, alignLoop, pathBytes, List.append_assoc]
       have hoff : pre.length + (s'.sig.length + 28) = (pre ++ chunk).length := by
         simp [chunk, sigBytes_length, hs'ski]; omega
-      have ih := valLoop_iff m stop T d ss' s' ps' p.asn (pre ++ chunk) stream (fun x hx => hski x (by simp [hx])) hl'
-        (fun x hx => hkeys x (by simp at hx ⊢; exact Or.inr hx))
+      have ih := valLoopV_iff m stop V d ss' s' ps' (k + 1) p.asn (pre ++ chunk) stream (fun x hx => hski x (by simp [hx])) hl'
         (by simpa [List.getLast_cons] using hover) hst'
-      simp only [valLoop, hnl, if_false, hdrop, List.head?_cons, Option.map_some, Option.getD_some, AllOk,
+      simp only [valLoopV, hnl, if_false, hdrop, List.head?_cons, Option.map_some, Option.getD_some, AllOkV,
         List.tail_cons]
-      rw [← tryKeys_search_iff hash verify m T s p _ (hkeys s (by simp))]
-      by_cases hr : tryKeys verify m (hash (digestOf d t (p :: ps') (s' :: ss'))) s.sig p.asn (searchBySki T s.ski) .valid = .valid
+      rw [← tryKeys_search_iff hash verify m (V k) s p _]
+      by_cases hr : tryKeys verify m (hash (digestOf d t (p :: ps') (s' :: ss'))) s.sig p.asn (searchBySki (V k) s.ski) .success = .valid
       · simp only [hr, if_true, true_and]
         rw [hoff]; exact ih
       · simp [hr]
 
 /-! ## `check_router_keys` -/
 
-theorem checkRouterKeys_cases (m : KeyMode) (T : Table) : ∀ (ss : List SigSeg) (ps : List PathSeg),
-    checkRouterKeys m T ss ps = .success ∨ checkRouterKeys m T ss ps = .routerKeyNotFound
-  | [], _ => by simp [checkRouterKeys]
-  | s :: ss, ps => by
-    unfold checkRouterKeys
-    by_cases h : (keysFor m T s.ski ((ps.head?.map (·.asn)).getD 0)).isEmpty
+theorem checkRouterKeysV_cases (m : KeyMode) (V : View) : ∀ (ss : List SigSeg) (ps : List PathSeg) (k : Nat),
+    checkRouterKeysV m V k ss ps = .success ∨ checkRouterKeysV m V k ss ps = .routerKeyNotFound
+  | [], _, _ => by simp [checkRouterKeysV]
+  | s :: ss, ps, k => by
+    unfold checkRouterKeysV
+    by_cases h : (keysFor m (V k) s.ski ((ps.head?.map (·.asn)).getD 0)).isEmpty
     · simp [h]
-    · simp only [h]; exact checkRouterKeys_cases m T ss ps.tail
+    · simp only [h]; exact checkRouterKeysV_cases m V ss ps.tail (k + 1)
+
+theorem checkRouterKeys_cases (m : KeyMode) (T : Table) (ss : List SigSeg) (ps : List PathSeg) :
+    checkRouterKeys m T ss ps = .success ∨ checkRouterKeys m T ss ps = .routerKeyNotFound :=
+  checkRouterKeysV_cases m (fun _ => T) ss ps 0
+
+/-- the pre-check succeeds exactly when its i-th lookup finds a key that counts for segment i -/
+theorem checkRouterKeysV_success_iff (m : KeyMode) (V : View) : ∀ (ss : List SigSeg) (ps : List PathSeg) (k : Nat),
+    ps.length = ss.length →
+    (checkRouterKeysV m V k ss ps = .success ↔
+      ∀ i s p, ss[i]? = some s → ps[i]? = some p → keysFor m (V (k + i)) s.ski p.asn ≠ [])
+  | [], _, _, _ => by simp [checkRouterKeysV]
+  | _ :: _, [], _, h => by simp at h
+  | s :: ss, p :: ps, k, h => by
+    have ih := checkRouterKeysV_success_iff m V ss ps (k + 1) (by simpa using h)
+    unfold checkRouterKeysV
+    simp only [List.head?_cons, Option.map_some, Option.getD_some, List.tail_cons]
+    by_cases he : (keysFor m (V k) s.ski p.asn).isEmpty
+    · simp only [he, if_true]
+      constructor
+      · intro x; cases x
+      · intro hall
+        have := hall 0 s p (by simp) (by simp)
+        rw [List.isEmpty_iff] at he
+        exact absurd he (by simpa using this)
+    · simp only [he, Bool.false_eq_true, if_false]
+      rw [ih]
+      constructor
+      · intro hall i s' p' hs hp
+        cases i with
+        | zero =>
+          simp only [List.getElem?_cons_zero, Option.some.injEq] at hs hp
+          subst hs; subst hp
+          simpa [List.isEmpty_iff] using he
+        | succ i =>
+          simp only [List.getElem?_cons_succ] at hs hp
+          have := hall i s' p' hs hp
+          rwa [show k + 1 + i = k + (i + 1) by omega] at this
+      · intro hall i s' p' hs hp
+        have := hall (i + 1) s' p' (by simpa using hs) (by simpa using hp)
+        rwa [show k + (i + 1) = k + 1 + i by omega] at this
 
 theorem keysFor_sub_search (m : KeyMode) (T : Table) (ski : List Nat) (asn : Nat) :
     keysFor m T ski asn ≠ [] → searchBySki T ski ≠ [] := by
@@ -217,44 +293,32 @@ theorem keysFor_sub_search (m : KeyMode) (T : Table) (ski : List Nat) (asn : Nat
   simp only [keysFor, List.mem_filter] at hk
   exact search_ne_nil_of_keyOk m T ski asn k hk.1 hk.2
 
-theorem checkRouterKeys_success_search (m : KeyMode) (T : Table) : ∀ (ss : List SigSeg) (ps : List PathSeg),
-    checkRouterKeys m T ss ps = .success → ∀ x ∈ ss, searchBySki T x.ski ≠ []
-  | [], _, _ => by simp
-  | s :: ss, ps, h => by
-    unfold checkRouterKeys at h
-    by_cases he : (keysFor m T s.ski ((ps.head?.map (·.asn)).getD 0)).isEmpty
-    · simp [he] at h
-    · simp only [he] at h
-      intro x hx
-      rcases List.mem_cons.mp hx with rfl | hx
-      · exact keysFor_sub_search m T _ _ (by simpa [List.isEmpty_iff] using he)
-      · exact checkRouterKeys_success_search m T ss ps.tail h x hx
-
-theorem allOk_checkRouterKeys (m : KeyMode) (T : Table) (d : Data) : ∀ (ps : List PathSeg) (ss : List SigSeg) (t : Nat),
-    AllOk hash verify m T d t ps ss → checkRouterKeys m T ss ps = .success
-  | _, [], _, _ => by simp [checkRouterKeys]
-  | [], _ :: _, _, h => by simp [AllOk] at h
-  | p :: ps, s :: ss, t, h => by
-    obtain ⟨⟨k, hk, hok, _⟩, hrest⟩ := h
-    unfold checkRouterKeys
+theorem allOk_checkRouterKeys (m : KeyMode) (T : Table) (d : Data) : ∀ (ps : List PathSeg) (ss : List SigSeg) (k k' t : Nat),
+    AllOkV hash verify m (fun _ => T) d k t ps ss → checkRouterKeysV m (fun _ => T) k' ss ps = .success
+  | _, [], _, _, _, _ => by simp [checkRouterKeysV]
+  | [], _ :: _, _, _, _, h => by simp [AllOkV] at h
+  | p :: ps, s :: ss, k, k', t, h => by
+    obtain ⟨⟨key, hk, hok, _⟩, hrest⟩ := h
+    unfold checkRouterKeysV
     have : ¬ (keysFor m T s.ski p.asn).isEmpty := by
       intro he
-      have hm : k ∈ keysFor m T s.ski p.asn := by simp [keysFor, List.mem_filter, hk, hok]
+      have hm : key ∈ keysFor m T s.ski p.asn := by simp [keysFor, List.mem_filter, hk, hok]
       rw [List.isEmpty_iff] at he; rw [he] at hm; simp at hm
     simp only [List.head?_cons, Option.map_some, Option.getD_some, this, List.tail_cons]
-    exact allOk_checkRouterKeys m T d ps ss p.asn hrest
+    exact allOk_checkRouterKeys m T d ps ss (k + 1) (k' + 1) p.asn hrest
 
-/-- `AllOk` hop by hop: hop `i` is checked against the RFC sequence `digestOf … (targetOf t ps i) (ps.drop i) (ss.drop (i+1))` -/
-theorem allOk_iff_forall (m : KeyMode) (T : Table) (d : Data) : ∀ (ps : List PathSeg) (ss : List SigSeg) (t : Nat),
+/-- `AllOkV` hop by hop: hop `i` is checked against the RFC sequence
+    `digestOf … (targetOf t ps i) (ps.drop i) (ss.drop (i+1))` under a key of the table `V (k + i)` -/
+theorem allOkV_iff_forall (m : KeyMode) (V : View) (d : Data) : ∀ (ps : List PathSeg) (ss : List SigSeg) (k t : Nat),
     ps.length = ss.length →
-    (AllOk hash verify m T d t ps ss ↔ ∀ i s p, ss[i]? = some s → ps[i]? = some p →
-      KeyVerifies hash verify m T s p (digestOf d (targetOf t ps i) (ps.drop i) (ss.drop (i + 1))))
-  | [], [], t, _ => by simp [AllOk]
-  | [], _ :: _, _, h => by simp at h
-  | _ :: _, [], _, h => by simp at h
-  | p :: ps, s :: ss, t, h => by
-    have ih := allOk_iff_forall m T d ps ss p.asn (by simpa using h)
-    simp only [AllOk, ih]
+    (AllOkV hash verify m V d k t ps ss ↔ ∀ i s p, ss[i]? = some s → ps[i]? = some p →
+      KeyVerifies hash verify m (V (k + i)) s p (digestOf d (targetOf t ps i) (ps.drop i) (ss.drop (i + 1))))
+  | [], [], _, t, _ => by simp [AllOkV]
+  | [], _ :: _, _, _, h => by simp at h
+  | _ :: _, [], _, _, h => by simp at h
+  | p :: ps, s :: ss, k, t, h => by
+    have ih := allOkV_iff_forall m V d ps ss (k + 1) p.asn (by simpa using h)
+    simp only [AllOkV, ih]
     constructor
     · rintro ⟨h0, hr⟩ i s' p' hs hp
       cases i with
@@ -265,13 +329,21 @@ theorem allOk_iff_forall (m : KeyMode) (T : Table) (d : Data) : ∀ (ps : List P
       | succ i =>
         simp only [List.getElem?_cons_succ] at hs hp
         have := hr i s' p' hs hp
+        rw [show k + 1 + i = k + (i + 1) by omega] at this
         simpa [targetOf_cons_succ] using this
     · intro hall
       refine ⟨?_, ?_⟩
       · simpa [targetOf] using hall 0 s p (by simp) (by simp)
       · intro i s' p' hs hp
         have := hall (i + 1) s' p' (by simpa using hs) (by simpa using hp)
+        rw [show k + (i + 1) = k + 1 + i by omega] at this
         simpa [targetOf_cons_succ] using this
+
+theorem allOk_iff_forall (m : KeyMode) (T : Table) (d : Data) (ps : List PathSeg) (ss : List SigSeg) (t : Nat)
+    (h : ps.length = ss.length) :
+    (AllOk hash verify m T d t ps ss ↔ ∀ i s p, ss[i]? = some s → ps[i]? = some p →
+      KeyVerifies hash verify m T s p (digestOf d (targetOf t ps i) (ps.drop i) (ss.drop (i + 1)))) :=
+  allOkV_iff_forall hash verify m (fun _ => T) d ps ss 0 t h
 
 /-- the checks `rtr_bgpsec_validate_as_path` makes before any key is looked up -/
 def Supported (d : Data) : Prop :=
@@ -292,10 +364,15 @@ instance (d : Data) : Decidable (NoOverrun d) :=
     if hlt : d.nlri.bytes.length < 13 + s.sig.length then isTrue (by unfold NoOverrun; simp [h, hlt])
     else isFalse (by unfold NoOverrun; simp [h, hlt])
 
-theorem validate_iff_allOk (m : KeyMode) (stop : Bool) (T : Table) (d : Data) (hski : ∀ s ∈ d.sigs, s.ski.length = 20)
+/-- the entry point against table snapshots: VALID iff the pre-checks pass, every lookup of
+    `check_router_keys` finds a key, and every hop verifies under a key found by the lookup of its own
+    loop iteration (numbers `n`, `n+1`, … where `n` is the number of segments) -/
+theorem validateV_iff (m : KeyMode) (stop : Bool) (V : View) (d : Data) (hski : ∀ s ∈ d.sigs, s.ski.length = 20)
     (hover : stop = true ∨ NoOverrun d) :
-    validate hash verify m stop d T = .valid ↔ Supported d ∧ AllOk hash verify m T d d.targetAs d.path d.sigs := by
-  unfold validate Supported
+    validateV hash verify m stop d V = .valid ↔
+      Supported d ∧ checkRouterKeysV m V 0 d.sigs d.path = .success ∧
+        AllOkV hash verify m V d d.sigs.length d.targetAs d.path d.sigs := by
+  unfold validateV Supported
   by_cases h1 : d.path = [] ∨ d.sigs = []
   · rw [if_pos h1]
     constructor
@@ -320,16 +397,15 @@ theorem validate_iff_allOk (m : KeyMode) (stop : Bool) (T : Table) (d : Data) (h
   have hsup : (d.path ≠ [] ∧ d.sigs ≠ [] ∧ d.path.length = d.sigs.length ∧ d.alg = 1 ∧ (d.nlri.afi = 1 ∨ d.nlri.afi = 2)) := by
     refine ⟨fun h => h1 (Or.inl h), fun h => h1 (Or.inr h), by omega, by omega, by omega⟩
   rw [and_iff_right hsup]
-  rcases checkRouterKeys_cases m T d.sigs d.path with hc | hc
-  · simp only [hc]
-    have hkeys := checkRouterKeys_success_search m T d.sigs d.path hc
-    match hs : d.sigs, hski, hkeys, hover with
-    | [], _, _, _ => exact absurd hs hsup.2.1
-    | s :: ss, hski, hkeys, hover =>
+  rcases checkRouterKeysV_cases m V d.sigs d.path 0 with hc | hc
+  · simp only [hc, true_and]
+    match hs : d.sigs, hski, hover with
+    | [], _, _ => exact absurd hs hsup.2.1
+    | s :: ss, hski, hover =>
       have hst : alignBytes .validation d = [] ++ (be32 d.targetAs ++ (alignLoop d.path ss ++ tailBytes d)) := by
         simp [alignBytes, startSigs, hs]
-      have := valLoop_iff hash verify m stop T d ss s d.path d.targetAs [] (alignBytes .validation d)
-        (fun x hx => hski x (by simp [hx])) (by have := hsup.2.2.1; rw [hs] at this; simpa using this) hkeys
+      have := valLoopV_iff hash verify m stop V d ss s d.path (s :: ss).length d.targetAs [] (alignBytes .validation d)
+        (fun x hx => hski x (by simp [hx])) (by have := hsup.2.2.1; rw [hs] at this; simpa using this)
         (by
           rcases hover with h | hover
           · exact Or.inl h
@@ -341,9 +417,23 @@ theorem validate_iff_allOk (m : KeyMode) (stop : Bool) (T : Table) (d : Data) (h
   · simp only [hc]
     constructor
     · intro h; cases h
-    · intro h
-      have := allOk_checkRouterKeys hash verify m T d d.path d.sigs d.targetAs h
-      rw [hc] at this; cases this
+    · intro h; cases h.1
+
+theorem validate_iff_allOk (m : KeyMode) (stop : Bool) (T : Table) (d : Data) (hski : ∀ s ∈ d.sigs, s.ski.length = 20)
+    (hover : stop = true ∨ NoOverrun d) :
+    validate hash verify m stop d T = .valid ↔ Supported d ∧ AllOk hash verify m T d d.targetAs d.path d.sigs := by
+  unfold validate AllOk
+  rw [validateV_iff hash verify m stop (fun _ => T) d hski hover,
+    allOkV_const hash verify m T d d.path d.sigs d.sigs.length 0 d.targetAs]
+  constructor
+  · rintro ⟨a, _, c⟩; exact ⟨a, c⟩
+  · rintro ⟨a, c⟩; exact ⟨a, allOk_checkRouterKeys hash verify m T d d.path d.sigs 0 0 d.targetAs c, c⟩
+
+/-- `validate_signature`: VALID needs a strict-DER signature field AND a verifying signature -/
+theorem validateSignature_valid_iff (wf : List Nat → Bool) (spki : List Nat) (h : H) (sig : List Nat) :
+    validateSignature wf verify spki h sig = .valid ↔ wf sig = true ∧ verify spki h sig = .valid := by
+  unfold validateSignature
+  by_cases hw : wf sig = true <;> simp [hw]
 
 end loop
 
@@ -375,25 +465,31 @@ theorem alignBytes_length (ty : AlignType) (d : Data) (hn : d.nlri.bytes.length 
 
 /-! ## a missing router key is reported as such -/
 
-theorem checkRouterKeys_missing (m : KeyMode) (T : Table) : ∀ (ss : List SigSeg) (ps : List PathSeg) (i : Nat) (s : SigSeg) (p : PathSeg),
-    ss[i]? = some s → ps[i]? = some p → keysFor m T s.ski p.asn = [] →
-    checkRouterKeys m T ss ps = .routerKeyNotFound
-  | [], _, _, _, _, h, _, _ => by simp at h
-  | _ :: _, [], _, _, _, _, h, _ => by simp at h
-  | s0 :: ss, p0 :: ps, i, s, p, hs, hp, hk => by
-    unfold checkRouterKeys
+theorem checkRouterKeysV_missing (m : KeyMode) (V : View) : ∀ (ss : List SigSeg) (ps : List PathSeg) (k i : Nat) (s : SigSeg) (p : PathSeg),
+    ss[i]? = some s → ps[i]? = some p → keysFor m (V (k + i)) s.ski p.asn = [] →
+    checkRouterKeysV m V k ss ps = .routerKeyNotFound
+  | [], _, _, _, _, _, h, _, _ => by simp at h
+  | _ :: _, [], _, _, _, _, _, h, _ => by simp at h
+  | s0 :: ss, p0 :: ps, k, i, s, p, hs, hp, hk => by
+    unfold checkRouterKeysV
     simp only [List.head?_cons, Option.map_some, Option.getD_some, List.tail_cons]
-    by_cases he : (keysFor m T s0.ski p0.asn).isEmpty
+    by_cases he : (keysFor m (V k) s0.ski p0.asn).isEmpty
     · simp [he]
     · simp only [he]
       cases i with
       | zero =>
         simp only [List.getElem?_cons_zero, Option.some.injEq] at hs hp
         subst hs; subst hp
+        rw [Nat.add_zero] at hk
         simp [hk] at he
       | succ i =>
         simp only [List.getElem?_cons_succ] at hs hp
-        exact checkRouterKeys_missing m T ss ps i s p hs hp hk
+        exact checkRouterKeysV_missing m V ss ps (k + 1) i s p hs hp (by rwa [show k + 1 + i = k + (i + 1) by omega])
+
+theorem checkRouterKeys_missing (m : KeyMode) (T : Table) (ss : List SigSeg) (ps : List PathSeg) (i : Nat) (s : SigSeg) (p : PathSeg)
+    (hs : ss[i]? = some s) (hp : ps[i]? = some p) (hk : keysFor m T s.ski p.asn = []) :
+    checkRouterKeys m T ss ps = .routerKeyNotFound :=
+  checkRouterKeysV_missing m (fun _ => T) ss ps 0 i s p hs hp hk
 
 /-! ## injectivity of the RFC sequence (what is hashed determines every signed field) -/
 
